@@ -244,6 +244,8 @@ type MapVal struct {
 	Keys []string // insertion order of rendered keys
 	M    map[string]Value
 	K    map[string]Value
+	// IsNil: the zero value of a map type (reads find nothing; it compares equal to nil)
+	IsNil bool
 }
 
 func NewMap() *MapVal { return &MapVal{M: map[string]Value{}, K: map[string]Value{}} }
